@@ -99,7 +99,8 @@ def run_l2(run, cases, l1_trace_path, ngraphs, nfamilies):
     loads = {e["case"]: e for e in vp.read_ndjson(l1_trace_path) if e.get("ev") == "Load"}
     ok = [c for c in cases if loads.get(c["id"], {}).get("load", {}).get("outcome") == "Ok"]
     graphs = [c for c in ok if c["family"] == "fk-graph"]
-    fams = [c for c in ok if c["family"] != "fk-graph"]
+    # formatted variables need typed values (dates, decimals): that family is decided at L1 (the recorded formatter), C18 renders formatters
+    fams = [c for c in ok if c["family"] not in ("fk-graph", "fk-formatters")]
     graphs = graphs if len(graphs) <= ngraphs else rng.sample(graphs, ngraphs)
     first = [c for c in fams if c["family"] != "fk-fallback"]
     fb = [c for c in fams if c["family"] == "fk-fallback"]
